@@ -573,6 +573,74 @@ def ModeBasis.fromDict (t : Tree) (native : Bool := true) : Except Err ModeBasis
   | .bool false => .ok (ModeBasis.toDense ⟨m, g⟩)
   | _ => .error .type
 
+/-! ## sparse storage formats assigned through the `transformation_matrix` setter
+
+The constructor, `append` and `extend` always store CSC; the setter stores what it is given.
+`to_dict` (after the repair of D162) converts to CSC first; the unrepaired `to_dict` wrote the
+`data` / `indices` / `indptr` attributes of whatever matrix was stored. -/
+
+/-- what `ModeBasis._transformation_matrix` can hold when it is sparse.  A CSR matrix is carried as
+its three arrays and its shape `[rows, columns]` (same record as `Csc`; `indices` are column indices,
+`indptr` has `rows + 1` entries).  `noIndices`: COO, LIL, DIA, DOK — formats without
+`indices` / `indptr` attributes. -/
+inductive SpStore where
+  | csc (c : Csc)
+  | csr (r : Csc)
+  | noIndices
+deriving Repr
+
+/-- the stored entries `(row, column, value)` of a CSR matrix, in storage order -/
+def csrEntries (r : Csc) : List (Nat × Nat × Rat) :=
+  (List.range (r.shape.headD 0)).flatMap fun i =>
+    let lo := ratNat (r.indptr.data.getD i 0)
+    let hi := ratNat (r.indptr.data.getD (i + 1) 0)
+    (List.range (hi - lo)).map fun q =>
+      (i, ratNat (r.indices.data.getD (lo + q) 0), r.data.data.getD (lo + q) 0)
+
+/-- `scipy.sparse.csc_matrix(csr)` (`csr_tocsc`): the entries are distributed over the columns in
+storage order, i.e. sorted by row inside each column; explicit zeros and duplicates are kept -/
+def csrToCsc (r : Csc) : Csc :=
+  let n := r.shape.headD 0
+  let m := (r.shape.drop 1).headD 0
+  let es := csrEntries r
+  let cols := (List.range m).map fun j => es.filter fun e => e.2.1 == j
+  let flat := cols.flatten
+  { data := ⟨r.data.dtype, [flat.length], flat.map (·.2.2)⟩
+    indices := ⟨r.indices.dtype, [flat.length], flat.map fun e => natRat e.1⟩
+    indptr := ⟨r.indptr.dtype, [m + 1], (cumul 0 (cols.map List.length)).map natRat⟩
+    shape := [n, m] }
+
+/-- the dense matrix a CSR record stands for (duplicates summed) -/
+def csrToDense (r : Csc) : Arr :=
+  let n := r.shape.headD 0
+  let m := (r.shape.drop 1).headD 0
+  let es := csrEntries r
+  { dtype := r.data.dtype, shape := [n, m]
+    data := (List.range (n * m)).map fun k =>
+      sumRat ((es.filter fun e => e.1 == k / m && e.2.1 == k % m).map (·.2.2)) }
+
+/-- the `transformation_matrix` entry of `to_dict()` after the repair of D162:
+`scipy.sparse.csc_matrix(T)` first.  (COO … DOK are converted by SciPy too; their conversion is not
+modelled: `none`.) -/
+def SpStore.toCsc : SpStore → Option Csc
+  | .csc c => some c
+  | .csr r => some (csrToCsc r)
+  | .noIndices => none
+
+/-- the unrepaired `to_dict()`: the attributes of the stored matrix as they are (`AttributeError`
+for the formats that have none) -/
+def SpStore.toDictOld : SpStore → Except Err Tree
+  | .csc c => .ok c.toDict
+  | .csr r => .ok r.toDict
+  | .noIndices => .error .attr
+
+/-- SciPy's consistency check of `csc_matrix((data, indices, indptr), shape)`:
+`len(indptr) == columns + 1` ("index pointer size … should be …") and 1-D arrays of equal length -/
+def Csc.wellFormed (c : Csc) : Bool :=
+  c.shape.length == 2 &&
+  c.indptr.data.length == (c.shape.drop 1).headD 0 + 1 &&
+  c.data.data.length == c.indices.data.length
+
 /-! ## FITS files -/
 
 structure FitsFile where
